@@ -71,12 +71,31 @@ class Engine:
         self.uf_apps = {}
 
     # ---------------------------------------------------------------- solver helpers
+    def _retry(self, assertions, extra=()):
+        """z3's non-linear heuristics are sensitive to term numbering: retry an `unknown` on fresh solvers."""
+        for seed in (1, 7, 23):
+            s2 = z3.Solver()
+            s2.set("timeout", self.timeout_ms)
+            s2.set("random_seed", seed)
+            for a in assertions:
+                s2.add(a)
+            self.queries += 1
+            t0 = _time.time()
+            r = s2.check(*extra)
+            self.solver_time += _time.time() - t0
+            if str(r) != "unknown":
+                return str(r), (s2.model() if str(r) == "sat" else None)
+        return "unknown", None
+
     def _check(self, *extra):
         self.queries += 1
         t0 = _time.time()
         r = self.solver.check(*extra)
         self.solver_time += _time.time() - t0
         s = str(r)
+        self._retry_model = None
+        if s == "unknown":
+            s, self._retry_model = self._retry(list(self.solver.assertions()), extra)
         if s == "sat":
             self.n_sat += 1
         elif s == "unsat":
@@ -84,6 +103,9 @@ class Engine:
         else:
             self.n_unknown += 1
         return s
+
+    def _last_model(self):
+        return self._retry_model if getattr(self, "_retry_model", None) is not None else self.solver.model()
 
     def _eval_under_model(self, cond):
         if self.model is None:
@@ -128,7 +150,7 @@ class Engine:
                 raise SolverUnknown(str(cond)[:200])
             if r == "sat":
                 guess = True
-                self.model = self.solver.model()
+                self.model = self._last_model()
             else:
                 guess = False  # cond infeasible => not cond must hold (PC is sat)
                 self.decisions.append(["b", False, []])
@@ -142,7 +164,7 @@ class Engine:
         if r == "unknown":
             raise SolverUnknown(str(cond)[:200])
         alts = [(not guess)] if r == "sat" else []
-        self.decisions.append(["b", guess, alts, self.solver.model() if r == "sat" else None])
+        self.decisions.append(["b", guess, alts, self._last_model() if r == "sat" else None])
         self.pos += 1
         c = cond if guess else z3.Not(cond)
         self.path.pc.append(c)
@@ -183,7 +205,7 @@ class Engine:
             raise PathAbort()
         if r == "unknown":
             raise SolverUnknown("assume " + str(cond)[:200])
-        self.model = self.solver.model()
+        self.model = self._last_model()
 
     def note(self, s):
         self.path.notes.append(s)
@@ -244,6 +266,11 @@ class Engine:
         t0 = _time.time()
         r = str(s.check())
         self.solver_time += _time.time() - t0
+        if r == "unknown" and timeout_ms is None:
+            r, m2 = self._retry(list(s.assertions()))
+            if r == "sat":
+                self.n_sat += 1
+                return r, m2
         if r == "sat":
             self.n_sat += 1
             return r, s.model()
